@@ -384,6 +384,55 @@ def history_task(item):
     return out
 
 
+def quarters_lifecycle_task(item):
+    """The adaptive loop's lifecycle on ONE operator with the VIRTUAL quarters the h-h/2 and hierarchical estimators use
+    (DummyElement.uniform_refinement - fresh vertex objects without a mesh index): the level meshes of a small universe are
+    served coarse to fine and back; on each, every pair (leaf, quarter of a leaf) in both roles and every pair of quarters of one
+    leaf and of two leaves is compared with the oracle at the property's tolerance.  What the operator keeps from the quarters of
+    an earlier mesh must not change an entry of the quarters of a later one."""
+    cname, sw = item
+    from src.hierarchical_error_estimator import DummyElement
+    g = curve(cname)
+    orc = oracle.EntryOracle(g)
+    U = universe.rect_universe(cname, (0., 1.), 1, 1, '')
+    SL = universe.make_SL(cname, sw, (0., 1.))
+    out = {'n': 0, 'viols': [], 'nviol': 0, 'worst': 0.0, 'meshes': 0}
+    order = sorted(U)
+    for step, lvl in enumerate(order + order[::-1][1:]):
+        m, leaves = U[lvl]
+        SL.mesh = m
+        SL._init_elems(leaves)
+        out['meshes'] += 1
+        kids = DummyElement.uniform_refinement(leaves)
+        pairs = []
+        for i, (e, ch) in enumerate(zip(leaves, kids)):
+            if any(universe.aspect(c) > ASPECT for c in ch) or universe.aspect(e) > ASPECT:
+                continue
+            for c in ch:
+                pairs += [(e, c), (c, e)]
+            pairs += [(c1, c2) for c1 in ch for c2 in ch]
+            j = (i + 1) % len(leaves)
+            if j != i and not any(universe.aspect(c) > ASPECT for c in kids[j]):
+                pairs += [(ch[0], kids[j][3]), (kids[j][1], ch[2]), (e, kids[j][0]), (kids[j][3], e)]
+        for te, tr in pairs:
+            ref = orc.value(tr, te)
+            scale = math.sqrt(orc.diag(te) * orc.diag(tr))
+            out['n'] += 1
+            try:
+                val = float(SL.bilform(tr, te))
+                err = abs(val - ref) / scale
+            except Exception as ex:  # noqa: BLE001
+                val, err = repr(ex), float('inf')
+            out['worst'] = max(out['worst'], min(err, 9e99))
+            if not err <= TOL:
+                out['nviol'] += 1
+                if len(out['viols']) < 2:
+                    out['viols'].append({'curve': cname, 'tgrid': (0., 1.), 'pw_exact': sw, 'class': 'virtual-quarters-lifecycle-step-{}'.format(step),
+                                         'test': [te.time_interval, te.space_interval], 'trial': [tr.time_interval, tr.space_interval], 'err': err,
+                                         'what': 'one operator over the level meshes {}: computed {!r} exact {!r}'.format((order + order[::-1][1:])[:step + 1], val, ref)})
+    return out
+
+
 # very short end times (h_t of order h_x^2 / 32): the kernel has decayed to nothing across the parameter interval but NOT across the
 # closing seam / around a corner - only the elements whose aspect passes the filter take part (the finest space level)
 SHORT_T = {'quick': [('UnitSquare', (0., 2.0**-9), 0, 2, ''), ('UnitSquare', (0., 2.0**-11), 0, 3, ''), ('Circle', (0., 2.0**-9), 0, 3, ''),
@@ -480,6 +529,17 @@ def run(ctx):
             ctx.violation({'layer': 'B-history', 'curve': v['curve'], 'pw_exact': v['pw_exact'], 'class': v['class']},
                           'bilform on {} pw_exact={} {}: test {} trial {}: {}'.format(v['curve'], v['pw_exact'], v['class'], v['test'], v['trial'], v['what']),
                           dict(v, layer='B'))
+    qitems = [(c, sw) for c in CURVES for sw in (False, True)]
+    nQ = 0
+    for it, r in zip(qitems, common.pmap_fresh(quarters_lifecycle_task, qitems, ctx.jobs)):
+        nQ += r['n']
+        for v in r['viols']:
+            ctx.violation({'layer': 'B-quarters-lifecycle', 'curve': v['curve'], 'pw_exact': v['pw_exact'], 'class': v['class']},
+                          'bilform on {} pw_exact={} {}: test {} trial {}: error {:.3e} * sqrt(D D\') (tol 1e-7); {}'.format(
+                              v['curve'], v['pw_exact'], v['class'], v['test'], v['trial'], v['err'], v['what']),
+                          dict(v, layer='B-quarters-lifecycle'))
+    if not nQ:
+        raise common.HarnessError('vacuity guard: quarters lifecycle clause empty')
     have = set(k.split('|')[0] for k in classes)
     missing = [c for c in ('identical', 'nested', 'touching', 'corner', 'seam-corner', 'seam-touching',
                            'disjoint-same-side', 'disjoint-other-side', 'disjoint-nearer-through-seam') if c not in have]
@@ -491,7 +551,7 @@ def run(ctx):
         'states': statesA, 'transitions': transA, 'traces_validated_against_impl': statesA,
         'layerA': sigsA, 'layerA_level': levA, 'layerA_bilform_swap_pairs': nswap,
         'evaluations': nB, 'distinct_nontrivial': nontriv, 'operator_history_evaluations_against_the_oracle': nfresh, 'observation_history_values_bitwise_different': nbit, 'cross_curve_history_evaluations_in_fresh_processes': nH,
-        'cross_curve_histories': len(hitems),
+        'cross_curve_histories': len(hitems), 'virtual_quarters_lifecycle_histories': len(qitems), 'virtual_quarters_lifecycle_evaluations': nQ,
         'rule': 'Layer B: every ordered (test, trial) pair of the dyadic rectangle universes listed in layerB_universes '
                 '(real elements, aspect <= 32), each with pw_exact off and on; distinct by construction; non-trivial = causal '
                 '(test interval ends after the trial interval begins)',
@@ -508,6 +568,11 @@ def run(ctx):
 
 
 def replay(ctx, data):
+    if data.get('layer') == 'B-quarters-lifecycle':
+        r = common.pmap_fresh(quarters_lifecycle_task, [(data['curve'], data['pw_exact'])], 1)[0]
+        for v in r['viols']:
+            print('  ', v)
+        return not r['nviol']
     if data.get('layer') == 'B':
         key = (data['curve'], tuple(data['tgrid']), 2, 3, '')
         g = curve(data['curve'])
